@@ -112,6 +112,64 @@ SPECS = {
             ("solid_T_top", "T_top", 2, "solid_field", "solidification stencil, top node"),
             ("w_i_k", "w_i_k", 2, "w_i_k", "ice mass fraction m_ice/mass"),
         ]),
+    "2D": dict(
+        file="Formulas2D.lean", source="snowing.py", func="Snowing._run_2D", namespace="Snow.Gen.F2D",
+        module="SnowProofs.Props.GenTie.Snowing2D", thm_ns="Snow.GenTie.S2D", hand="SnowModel/Snowing2D.lean",
+        formulas=[
+            ("radius", "radius", 1, "radius", "radius = diameter/2"),
+            ("T_m", "T_m", 1, "T_m", "T_m = const[T_eq] + 273.15"),
+            ("T_eq_l", "T_eq_l", 1, "T_eq_l", "T_eq_l = T_m - depression"),
+            ("K_wall", "K_wall", 1, "K_wall", "wall heat transfer coefficient of the jacket"),
+            ("k_eff", "k_eff", 1, "k_eff", "cooling-stage conductivity"),
+            ("alpha", "alpha", 1, "alpha", "cooling-stage diffusivity"),
+            ("dz", "dz", 1, "dz", "dz = height/Nz"),
+            ("dr", "dr", 1, "dr", "dr = radius/Nr"),
+            ("alpha_max", "alpha_max", 1, "alpha_max", "alpha_max = lambda_i/(cp_i rho_l)"),
+            ("dt", "dt", 1, "dt", "CFL time step"),
+            ("q_overall", "q_overall", 1, "cool_step", "shelf heat flux (cooling)"),
+            ("T_bottom", "T_bottom", 1, "cool_step", "ghost row below the bottom (cooling)"),
+            ("q_e", "q_e", 1, "q_e", "q_e = -N_w dHe inside the window (cooling)"),
+            ("T_top", "T_top", 1, "cool_step", "ghost row above the top (cooling)"),
+            ("q_jacket", "q_jacket", 1, "q_jacket", "jacket heat flux"),
+            ("T_edge", "T_edge", 1, "cool_step", "ghost column beyond the wall (cooling, spacing dr)"),
+            ("cool_bottom_centre", "T_new[0, 0]", 1, "cool_bottom_centre", "cooling stencil, region bottom centre"),
+            ("cool_bottom_corner", "T_new[0, Nr - 1]", 1, "cool_bottom_corner", "cooling stencil, region bottom corner"),
+            ("cool_bottom_rest", "T_new[0, 1:Nr - 1]", 1, "cool_bottom_rest", "cooling stencil, region bottom rest"),
+            ("cool_top_centre", "T_new[Nz - 1, 0]", 1, "cool_top_centre", "cooling stencil, region top centre"),
+            ("cool_top_corner", "T_new[Nz - 1, Nr - 1]", 1, "cool_top_corner", "cooling stencil, region top corner"),
+            ("cool_top_rest", "T_new[Nz - 1, 1:Nr - 1]", 1, "cool_top_rest", "cooling stencil, region top rest"),
+            ("cool_edge", "T_new[1:Nz - 1, Nr - 1]", 1, "cool_edge", "cooling stencil, region edge"),
+            ("cool_centre_line", "T_new[1:Nz - 1, 0]", 1, "cool_centre_line", "cooling stencil, region centre line"),
+            ("cool_bulk", "T_new[1:Nz - 1, 1:Nr - 1]", 1, "cool_bulk", "cooling stencil, region bulk"),
+            ("J_z_r", "J_z_r[superCooledMask]", 1, "J_z_r", "nucleation rate on the supercooled mask"),
+            ("E_t", "E_t", 1, "cool_loop_step", "E_t += K_v dt"),
+            ("F_nuc", "F_nuc", 1, "cool_loop_step", "F_nuc = 1 - exp(-E_t)"),
+            ("B", "B", 1, "B", "coefficient B of the nucleation quadratic (per node)"),
+            ("C", "C", 1, "C", "coefficient C of the nucleation quadratic (per node)"),
+            ("T_eq_sol_1", "T_eq_sol_1", 1, "T_eq_sol_1", "equilibrium temperature: the -sqrt root"),
+            ("m_i_nucl_sol_1", "m_i_nucl_sol_1", 1, "m_i_nucl_sol_1", "ice mass at the equilibrium temperature"),
+            ("w_i_nucl", "w_i_new", 1, "w_i_nucl", "ice fraction after nucleation"),
+            ("cp_eff", "cp_eff", 1, "cp_eff", "heat capacity of the partially frozen node"),
+            ("solid_k_eff", "k_eff", 2, "solid_k_eff", "conductivity of the partially frozen node"),
+            ("beta", "beta", 1, "beta", "nonlinear capacitance coefficient"),
+            ("solid_q_overall", "q_overall", 2, "solid_step", "shelf heat flux (solidification)"),
+            ("solid_T_bottom", "T_bottom", 2, "solid_step", "ghost row below the bottom (solidification)"),
+            ("solid_q_e", "q_e", 4, "solid_q_e", "q_e = -N_w dHe inside the window (solidification)"),
+            ("solid_T_top", "T_top", 2, "solid_step", "ghost row above the top (solidification)"),
+            ("solid_q_jacket", "q_jacket", 3, "solid_q_jacket", "jacket heat flux (solidification)"),
+            ("solid_T_edge", "T_edge", 2, "solid_step", "ghost column beyond the wall (solidification, spacing dr)"),
+            ("solid_bottom_centre", "T_new[0, 0]", 2, "solid_bottom_centre", "solidification stencil, region bottom centre"),
+            ("solid_bottom_corner", "T_new[0, Nr - 1]", 2, "solid_bottom_corner", "solidification stencil, region bottom corner"),
+            ("solid_bottom_rest", "T_new[0, 1:Nr - 1]", 2, "solid_bottom_rest", "solidification stencil, region bottom rest"),
+            ("solid_top_centre", "T_new[Nz - 1, 0]", 2, "solid_top_centre", "solidification stencil, region top centre"),
+            ("solid_top_corner", "T_new[Nz - 1, Nr - 1]", 2, "solid_top_corner", "solidification stencil, region top corner"),
+            ("solid_top_rest", "T_new[Nz - 1, 1:Nr - 1]", 2, "solid_top_rest", "solidification stencil, region top rest"),
+            ("solid_edge", "T_new[1:Nz - 1, Nr - 1]", 2, "solid_edge", "solidification stencil, region edge"),
+            ("solid_centre_line", "T_new[1:Nz - 1, 0]", 2, "solid_centre_line", "solidification stencil, region centre line"),
+            ("solid_bulk", "T_new[1:Nz - 1, 1:Nr - 1]", 2, "solid_bulk", "solidification stencil, region bulk"),
+            ("w_i_new", "w_i_new", 2, "w_i_new", "ice mass fraction m_ice/(mass_water + mass_solute)"),
+            ("sigma_new", "sigma_new", 1, "sigma_new", "closed part of sigma_new: normalisation of the volume integral"),
+        ]),
 }
 
 
